@@ -36,7 +36,11 @@ def make_inputs():
 def explore_check(func, lex, ids_builder):
     def run(it):
         ids = ids_builder(it, lex)
-        return it.call(func, [lex, ids], {})
+        res = it.call(func, [lex, ids], {})
+        # frame: the id tables are shared by all checks of one validate() call
+        touched = [k for k, c in (ids.d.items() if hasattr(ids, 'd') else []) if getattr(c, 'mutated', False)]
+        it.ctx.notes.append(('ids-mutated', touched))
+        return res
     return explore(run, contracts=validate_contracts(), packages=('wn', 'contracts.spec_validate'))
 
 
@@ -90,6 +94,12 @@ def check_obligations() -> list:
                                       source=source_span(func),
                                       detail=f'{code} can raise {exc_type.__name__} ({what}) for a loadable lexicon',
                                       model_vars=[b.var for b in binders]))
+            touched = [t for n_ in o.notes if isinstance(n_, tuple) and n_[0] == 'ids-mutated' for t in n_[1]]
+            obs.append(Obligation(f'{name}:frame(ids):{pid}', decided=not touched, kind='frame', prop=PROP,
+                                  functions=(name,), source=source_span(func),
+                                  detail=(f'the check modifies the shared id table(s) {touched}: later checks of the same '
+                                          'validate() call see other ids' if touched else
+                                          'the shared id tables are only read')))
             if spec is None:
                 continue
             res = o.value
@@ -276,6 +286,69 @@ def rejection_obligations() -> list:
     return obs
 
 
+def rejection_bounded(sess: Session):
+    """A lexicon for which E204 / E401 is reported is rejected by add (native, generated lexicons): dangling synset of a
+    sense, dangling target of a synset relation, of a sense relation and of a sense-synset relation."""
+    import os
+    import shutil
+    import tempfile
+    import wn
+    import wn.validate as V_
+    base = {'id': 'bad', 'label': 'L', 'language': 'en', 'email': 'e', 'license': 'l', 'version': '1', 'meta': None}
+    ok_ss = {'id': 'bad-ss1', 'ili': '', 'partOfSpeech': 'n', 'meta': None}
+
+    def entry(sense):
+        return {'id': 'bad-e1', 'meta': None, 'lemma': {'writtenForm': 'w', 'partOfSpeech': 'n'}, 'senses': [sense]}
+    cases_in = {
+        'E204 sense -> missing synset': dict(base, entries=[entry({'id': 'bad-s1', 'synset': 'bad-nope', 'meta': None})],
+                                             synsets=[ok_ss]),
+        'E401 synset relation -> missing synset': dict(base, entries=[entry({'id': 'bad-s1', 'synset': 'bad-ss1',
+                                                                             'meta': None})],
+                                                       synsets=[dict(ok_ss, relations=[
+                                                           {'target': 'bad-nope', 'relType': 'hypernym', 'meta': None}])]),
+        'E401 sense relation -> missing sense': dict(base, entries=[entry({'id': 'bad-s1', 'synset': 'bad-ss1',
+                                                                           'meta': None, 'relations': [
+                                                                               {'target': 'bad-nope', 'relType': 'antonym',
+                                                                                'meta': None}]})], synsets=[ok_ss]),
+        'E401 synset relation -> a sense id': dict(base, entries=[entry({'id': 'bad-s1', 'synset': 'bad-ss1',
+                                                                         'meta': None})],
+                                                   synsets=[dict(ok_ss, relations=[
+                                                       {'target': 'bad-s1', 'relType': 'hypernym', 'meta': None}])]),
+    }
+    work = tempfile.mkdtemp(prefix='wnrej')
+    old = wn.config.data_directory
+    bad = []
+    try:
+        for k, (label, lex) in enumerate(cases_in.items()):
+            d = os.path.join(work, f'd{k}')
+            os.makedirs(d)
+            wn.config.data_directory = d
+            good = dict(base, id='good')
+            wn.add_lexical_resource({'lmf_version': '1.0', 'lexicons': [good]}, progress_handler=None)
+            rep = V_.validate(lex, select=('E',), progress_handler=None)
+            reported = any(v.get('items') for v in rep.values())
+            try:
+                wn.add_lexical_resource({'lmf_version': '1.0', 'lexicons': [lex]}, progress_handler=None)
+                accepted = True
+            except Exception:   # noqa: BLE001
+                accepted = False
+            left = sorted(x.id for x in wn.lexicons())
+            if reported and (accepted or left != ['good']):
+                bad.append({'case': label, 'add accepted it': accepted, 'lexicons afterwards': left})
+            if not reported:
+                bad.append({'case': label, 'validate reports no error': True})
+    finally:
+        wn.config.data_directory = old
+        shutil.rmtree(work, ignore_errors=True)
+    sess.add_bounded('wn.add_lexical_resource on lexicons with E204/E401', f'{len(cases_in)} generated lexicons',
+                     len(cases_in), 'native execution', not bad)
+    if bad:
+        sess.violation_direct('wn._add:rejects-E204/E401', 'a lexicon for which validate reports a dangling reference '
+                              'is accepted by add (or partly stored)', {'witness': bad[:2]}, True,
+                              functions=('wn._add._insert_senses', 'wn._add._insert_synset_relations',
+                                         'wn._add._insert_sense_relations'))
+
+
 def table_obligations() -> list:
     """The relation tables the checks read: REVERSE_RELATIONS is an involution over known relation names (a relation
     and its reverse name each other), decided on the real table."""
@@ -295,6 +368,7 @@ def run(sess: Session):
     sess.assume('A-ENGINE', 'A-PY-COUNTER')
     for ob in table_obligations():
         sess.check(ob)
+    rejection_bounded(sess)
     sess.trust('vc/pyvc', 'collections.Counter: count(x) > 1 iff x occurs at two positions (A-PY-COUNTER)')
     for item in check_obligations():
         if isinstance(item, tuple):
